@@ -417,6 +417,8 @@ Fixpoint flat_idx (sh idx : list nat) (acc : nat) : nat :=
   end.
 Definition torch_val (t : btensor) (bb : nat) (idx : list nat) : K :=
   torch_fin (torch_b t) bb (flat_idx (bshape_of (bmodes t)) idx O).
+(* right rank of the last core (1 for a TT tensor built by the library; R for a CP-ended one) *)
+Definition brank_last (t : btensor) : nat := last (map (fun m => bc_rr (bcore m)) (bmodes t)) O.
 
 (* literals coming from the harness: row-major tables with the batch axis first *)
 Definition get4 (d1 d2 d3 : nat) (l : list K) (bb p j q : nat) : K := nth (((bb * d1 + p) * d2 + j) * d3 + q)%nat l 0.
@@ -449,5 +451,5 @@ Arguments bmul_mode {K}. Arguments bmul_modes {K}. Arguments bd1s {K}. Arguments
 Arguments bscale_core {K}. Arguments bsmul_modes {K}. Arguments smul_b {K}. Arguments const_b {K}. Arguments sadd_b {K}.
 Arguments bsel_core {K}. Arguments bsel_fac {K}. Arguments select_b {K}. Arguments select_int_b {K}.
 Arguments mkBF {K}. Arguments f_rows {K}. Arguments f_r {K}. Arguments f_tab {K}.
-Arguments torch_step {K}. Arguments torch_walk {K}. Arguments torch_fin {K}. Arguments torch_b {K}. Arguments torch_val {K}.
+Arguments torch_step {K}. Arguments torch_walk {K}. Arguments torch_fin {K}. Arguments torch_b {K}. Arguments torch_val {K}. Arguments brank_last {K}. Arguments flat_idx sh idx acc : simpl nomatch.
 Arguments get4 {K}. Arguments get3b {K}. Arguments lit_btt {K}. Arguments lit_bcp {K}. Arguments lit_bU {K}.
